@@ -180,6 +180,7 @@ class CueGen:
 
     def region(self, e, prefix="s"):
         w = {"b": 0.4, "d": 1.6, "p": 1.2}.get(prefix, 0.1)
+        if self.in_ruby and self.ruby_quiet: return
         if self.regs and self.rng.random() < self.rrp * w: e.set_region(self.rng.choice(self.regs))
 
     def common(self, e, prefix, timed=True):
@@ -207,8 +208,11 @@ class CueGen:
         return e
 
     def wrap(self, cls, prefix):
+        import ttconv.model as m
         e = cls(self.d); self.common(e, prefix)
         for _ in range(self.rng.randint(0, 2)): e.push_child(self.span(2, allow_nested=False))
+        if self.ruby_quiet:        # an annotation emptied by white-space handling makes snapshot generation raise (C01 finding)
+            sp = m.Span(self.d); sp.set_id(self.uid("s")); self.n += 1; sp.push_child(m.Text(self.d, "R%d" % self.n)); e.push_child(sp)
         return e
 
     def ruby(self):
